@@ -254,20 +254,21 @@ def corr_recursions(ck, tier):
     import abel
     from harness.common import drive, h2arr, arr2h, f2h
     rng = np.random.default_rng(seed() + 404)
-    sizes = [3, 4, 5, 9, 26, 60] if tier == "quick" else [3, 4, 5, 6, 9, 26, 60, 101, 201, 301]
+    sizes = [2, 3, 4, 5, 9, 26, 60] if tier == "quick" else [2, 3, 4, 5, 6, 9, 26, 60, 101, 201, 301]
     lines, meta = [], []
     for n in sizes:
         for dr in (1.0, float(rng.uniform(0.05, 3.0))):
             x = rng.normal(size=n) * rng.uniform(0.1, 10)
             for fwd in (0, 1):
                 for opt in (0, 1):
-                    lines.append(f"hansen {fwd} {opt} {f2h(dr)} {arr2h(x)}")
+                    lines.append(f"hansen {fwd} {opt} {f2h(dr)} {arr2h(x)}")          # (2 columns: the recursion fills nothing, zeros)
                     meta.append(("hansenlaw", n, dr, fwd, opt, x))
                     if n >= 3:
                         lines.append(f"direct {fwd} {opt} {f2h(dr)} {arr2h(x)}")
                         meta.append(("direct", n, dr, fwd, opt, x))
-            lines.append(f"bordas {f2h(dr)} {arr2h(x)}")
-            meta.append(("onion_bordas", n, dr, 0, 0, x))
+            if n >= 3:
+                lines.append(f"bordas {f2h(dr)} {arr2h(x)}")
+                meta.append(("onion_bordas", n, dr, 0, 0, x))
     try:
         replies = drive(lines)
     except Exception as e:
